@@ -66,6 +66,7 @@ class Obligation:
         self.lineno = lineno
         self.inputs = inputs or {}
         self.note = note
+        self.pc_lite = None
 
     def byte_range_facts(self):
         # inputs of type bytes really are bytes: used to obtain replayable models (and to discard
@@ -350,7 +351,17 @@ class FnExec:
         if key in self.dedupe:
             return
         self.dedupe.add(key)
-        self.obls.append(Obligation(full, st.pc, goal, kind, self.qualname, lineno, dict(self.inputs), note))
+        ob = Obligation(full, st.pc, goal, kind, self.qualname, lineno, dict(self.inputs), note)
+        if any(has_quantifier(c) for c in st.pc):
+            # first attempt without the universally quantified hypotheses (their explicit instances stay):
+            # fewer hypotheses is still a proof, and it keeps the solver out of quantifier instantiation
+            lite = []
+            for c in st.pc:
+                for q in _conjuncts(c):
+                    if not z3.is_quantifier(q):
+                        lite.append(q)
+            ob.pc_lite = lite
+        self.obls.append(ob)
 
     def assumption(self, aid):
         self.eng.assumptions_used.add(aid)
